@@ -43,7 +43,31 @@ def replay_all(recs, scratch, tag, engine_cls=None):
     for c, r in zip(cases, res):
         if not r.get("ok"):
             out.append((c, None, [{"what": "replay_failed", "error": r.get("error"), "tb": str(r.get("tb"))[-500:]}]))
+        elif c.get("com"):
+            out.append((c, r["result"], vv_driver.compare_com(c, r["result"])))
         else:
             out.append((c, r["result"], vv_driver.compare(c, r["result"])))
         common.rm(c["workdir"])
+    return out
+
+
+CADENCES = [dict(data=3, vec=3, print=2, xyz=2), dict(data=2, vec=3, print=0, xyz=3), dict(data=3, vec=2, print=2, xyz=0), dict(data=1, vec=2, print=3, xyz=2)]
+
+
+def variants(recs, rng, n_each):
+    """Run-option variants of exported NVE behaviours: non-nested output cadences, two-row batches with a
+    non-identity molid, periodic COM removal on an off-centre geometry."""
+    out = []
+    pool = [r for r in recs if r["engine"] == "nve"]
+    for r in rng.sample(pool, min(n_each, len(pool))):
+        out.append(dict(r, cad=rng.choice(CADENCES), variant="cadence"))
+    for r in rng.sample(pool, min(n_each, len(pool))):
+        mates = [m for m in pool if m is not r and m["np"] == r["np"] and m["k"] == r["k"] and m["g"] == r["g"] and len(m["hist"]) == len(r["hist"])
+                 and (m["hist"][0] != r["hist"][0] or m["m"] != r["m"])]
+        if not mates:
+            continue
+        out.append(dict(r, mates=[rng.choice(mates)], molid=rng.choice([[1], [1, 0]]), cad=rng.choice([None, CADENCES[0]]), variant="batch"))
+    free = [r for r in pool if not any(r["g"]) and any(any(p) for p in r["hist"][0]["v"])]
+    for r in rng.sample(free, min(n_each, len(free))):
+        out.append(dict(r, com=[rng.choice(["linear", "angular"]), rng.choice([1, 2])], shift=[3.0, -2.0, 1.0], variant="com"))
     return out
